@@ -528,6 +528,8 @@ def run_execution(sh, ch, nops, maxdev, want_key=False, actions_from=0, opset=No
             except Exception as e:
                 crashed = e
         step = dict(op=op, now=now, real=real, model=dict(events=[list(e) for e in model.events], running=model.running, cs=model.cs), acts=list(ctx.acts))
+        if op[0] == "setdur":
+            step["setdur_value"] = float(newv)
         trace.append(step)
         if crashed is not None:
             step["crash"] = repr(crashed)
@@ -1055,11 +1057,85 @@ def run_check(pid, tier, seed, shapes, nops, maxdev, bfs_depth, rule_extra="", p
         "tm passed to a default state outside an engagement and the start of a default state's clock after an expiry are unspecified and not compared",
         "BFS merging uses the reference-model state plus a name-independent dump of the non-float implementation fields; merge-soundness probes and the unmerged flat DFS guard it",
     ]
+    attach_pytests(res, pid)
     return core.finish(pid, tier, seed, res, time.time() - t0, rule, assumptions)
 
 
 def nops_for(sh, nops):
     return nops
+
+
+def pytest_source(rp, pid="", sig=""):
+    """A plain pytest function that replays one recorded execution without the explorer."""
+    sh = rp["shape"]
+    trace = rp["trace"]
+    k = rp.get("failing_step", len(trace) - 1)
+    script = [list(a) for st in trace for a in st["acts"]]
+    lt = long_ticks(sh)
+    L = []
+    L.append(f"# Stand-alone reproduction generated by /verif for property {pid} (signature {sig}).")
+    L.append("# Run with:  cd <repository> && /venv/bin/python -m pytest -q -p no:cacheprovider <this file>")
+    L.append("import logging\nimport hal.simulation as hs\nimport ntcore\nimport wpilib")
+    L.append("from magicbot.state_machine import StateMachine, AutonomousStateMachine, state, timed_state, default_state")
+    L.append("from magicbot.magic_tunable import setup_tunables\n")
+    L.append("TICK_US = 15625  # 1/64 s: exact in binary floating point")
+    L.append("CALLS = []")
+    L.append(f"SCRIPT = {script!r}  # what each state-function invocation does, in invocation order\n")
+    L.append("class _Ctx:\n    def on_done(self, sm):\n        CALLS.append(('done',))\n    def on_call(self, sm, name, tag, kw):\n        CALLS.append((name, dict(kw)))\n        act = SCRIPT.pop(0) if SCRIPT else ['none']\n        if act[0] == 'ns':\n            sm.next_state(act[1])\n        elif act[0] == 'nsn':\n            sm.next_state_now(act[1])\n        elif act[0] == 'done':\n            sm.done()\n\n_ctx = _Ctx()\n")
+    L.append(rp.get("source") or class_source(sh))
+    L.append("\ndef test_replay():")
+    L.append("    hs.pauseTiming()\n    rem = wpilib.RobotController.getFPGATime() % TICK_US\n    if rem:\n        hs.stepTimingAsync(TICK_US - rem)")
+    name = "replay_" + core.stable_hash([sh["name"], rp.get("choices")])
+    L.append(f"    sm = M()\n    sm.logger = logging.getLogger('replay')\n    setup_tunables(sm, {name!r})")
+    L.append(f"    nt = ntcore.NetworkTableInstance.getDefault()")
+    for i, st in enumerate(trace):
+        op = st["op"]
+        L.append(f"    # step {i}: {tuple(op)}")
+        if i == k:
+            L.append("    del CALLS[:]")
+        if op[0] in ("exec", "iter"):
+            adv = lt if op[1] == LONG else op[1]
+            if adv:
+                L.append(f"    hs.stepTimingAsync({adv} * TICK_US)")
+            L.append("    sm.execute()" if op[0] == "exec" else "    sm.on_iteration(wpilib.Timer.getFPGATimestamp())")
+        elif op[0] == "engage":
+            args = []
+            if op[1]:
+                args.append(f"initial_state={op[1]!r}")
+            if op[2]:
+                args.append("force=True")
+            L.append(f"    sm.engage({', '.join(args)})")
+        elif op[0] in ("done", "on_disable", "on_enable"):
+            L.append(f"    sm.{op[0]}()")
+        elif op[0] == "setdur":
+            L.append(f"    nt.getEntry('/components/{name}/state/{op[1]}_duration').setDouble({st.get('setdur_value')!r})")
+    # expectation of the reference model for the failing step
+    st = trace[k]
+    mcalls = [e for e in st["model"]["events"] if e[0] == "call"]
+    L.append("    # what the reference model (the property) expects from the last step:")
+    L.append("    ran = [c[0] for c in CALLS if c[0] != 'done']")
+    L.append(f"    assert ran == {[e[1] for e in mcalls]!r}, ran")
+    for j, e in enumerate(mcalls):
+        if e[2] is not None:
+            L.append(f"    args = [c[1] for c in CALLS if c[0] != 'done'][{j}]")
+            L.append(f"    assert args.get('tm', {float(F(e[2]))!r}) == {float(F(e[2]))!r}, args")
+            L.append(f"    assert args.get('state_tm', {float(F(e[3]))!r}) == {float(F(e[3]))!r}, args")
+            L.append(f"    assert args.get('initial_call', {e[4]!r}) == {e[4]!r}, args")
+    if any(e[0] == "done" for e in st["model"]["events"]):
+        L.append("    assert ('done',) in CALLS, 'done() was not invoked'")
+    L.append(f"    assert sm.is_executing == {st['model']['running']!r}")
+    L.append(f"    assert sm.current_state == {st['model']['cs']!r}")
+    return "\n".join(L) + "\n"
+
+
+def attach_pytests(res, pid):
+    for sig, v in res.violations.items():
+        rp = v.get("replay") or {}
+        if rp.get("engine") == "sm" and rp.get("trace") and "pytest" not in rp:
+            try:
+                rp["pytest"] = pytest_source(rp, pid, sig)
+            except Exception as e:  # noqa  (never let the convenience artefact break the report)
+                rp["pytest"] = f"# could not generate: {e!r}"
 
 
 def replay(path):
